@@ -10,16 +10,27 @@ LEVEL = "exploration"
 RULE = (
     "Engine-A runs with screening: tolerance 1e-4..1e-2, step size / drag varied, static and time-dependent fields, terminals, "
     "iteration budgets below need (forced non-convergence), plus screening-off runs; every iteration: kernel == direct SI double sum "
-    "and reported mismatch == recomputed; every accepted step: mismatch < tolerance and stored potential reproduces the sum from the "
+    "and reported mismatch == recomputed; 8 % of the runs are bare calls of the accelerated kernel on random currents / areas / point sets of 1..12289 source sites (far beyond the simulated meshes) against the direct double sum; "
+    " every accepted step: mismatch < tolerance and stored potential reproduces the sum from the "
     "stored currents; non-convergence raises and records nothing. Non-trivial = at least 2 accepted screening steps or a forced "
     "non-convergence; distinct = scenario digests"
 )
-LIFECYCLES = {"p_prior": 0.07, "p_metres": 0.08, "p_reoriented": 0.04, "p_used": 0.15}  # shared object life cycles (scen.add_lifecycles) with their default rates
+LIFECYCLES = {"p_prior": 0.07, "p_metres": 0.08, "p_reoriented": 0.04, "p_used": 0.15, "p_guest": 0.1}  # shared object life cycles (scen.add_lifecycles) with their default rates
 BUDGET = {"quick": {"runs": 200, "chunk": 5}, "thorough": {"runs": 30000, "chunk": 10}}
 COMPONENTS = {"real": ["numba kernel get_A_induced_numba", "TDGLSolver.get_induced_vector_potential / update iteration loop", "Mesh.get_quantity_on_site"], "stub": ["wall clock"]}
 
 
+KERNEL_SIZES = (1, 3, 50, 300, 1024, 2049, 4095, 4096, 4097, 5000, 8191, 8193, 9000, 12289)
+
+
 def gen(seed, idx, tier):
+    rk = substream(seed, idx, "c13-bare-kernel")
+    if rk.random() < 0.08:
+        # "kernel equivalence for arbitrary currents, areas and point sets": the accelerated kernel on its own,
+        # on point sets far larger than the meshes of the simulated runs (blocking / chunking strategies that
+        # only switch on for large problems), against the direct double sum
+        return {"kernel_only": True, "n_sites": rk.choice(KERNEL_SIZES), "n_points": rk.choice([1, 7, 64, 200]), "seed": rk.randrange(10**6), "threads": rk.choice([1, 2, 4]), "clustered": rk.random() < 0.3,
+                "options": {}, "device": {}, "drive": {"field": {"kind": "zero"}}, "faults": [], "meta": {}}
     rnd = substream(seed, idx, "c13")
     screening = rnd.random() < 0.85
     scn = scen.gen_physics(
@@ -137,7 +148,47 @@ def post(sim, h):
     return V
 
 
+def run_kernel_only(scn):
+    import numba
+    import numpy as np
+    from tdgl.solver.screening import get_A_induced_numba
+
+    from .. import refphys as R
+    from ..common import digest_arrays, digest_obj
+
+    rs = np.random.default_rng(scn["seed"])
+    n, m = scn["n_sites"], scn["n_points"]
+    sites = rs.uniform(-5, 5, (n, 2))
+    if scn.get("clustered"):
+        sites[: n // 2] = rs.normal(0.0, 0.05, (n // 2, 2))
+    J = rs.normal(0.0, 1.0, (n, 2)) * rs.choice([1.0, 1e-6, 1e3])
+    areas = rs.uniform(0.01, 0.2, n)
+    pts = rs.uniform(-5, 5, (m, 2)) + 1e-3  # evaluation points are never mesh sites (edge centres)
+    out = np.full((m, 2), np.nan)
+    old = numba.get_num_threads()
+    numba.set_num_threads(min(scn.get("threads", 1), numba.config.NUMBA_NUM_THREADS))
+    try:
+        get_A_induced_numba(J, areas, sites, pts, out)
+    finally:
+        numba.set_num_threads(old)
+    direct = R.induced_direct(J, areas, sites, pts)
+    scale = float(np.max(np.abs(direct), initial=0.0)) + 1e-300
+    err = float(np.max(np.abs(out - direct))) / scale if np.all(np.isfinite(out)) else float("inf")
+    V = []
+    if not err <= 1e-9:  # fastmath re-association over up to 12289 terms of mixed sign
+        V.append(Violation("kernel-vs-direct", f"bare kernel call, {n} source sites x {m} points: the kernel differs from the direct double sum by {err:.3g} relative", step=-1, bare=True, large=n > 4096))
+    return {
+        "digest": digest_obj(scn), "outcome": "kernel-only", "exc": None, "violations": [dict(v) for v in V], "nontrivial": True,
+        "sig": ("kernel-only", n, m, scn.get("threads"), bool(scn.get("clustered"))),
+        "fingerprint": digest_arrays(np.round(out / scale, 6)),
+        "stats": {"steps": 0, "sim_time": 0.0, "probes": {"bare_kernel_call": 1, f"bare_kernel_sites:{n}": 1}, "faults": [], "attempts": 0, "screen_iters": 0, "sites": n, "iters": 0, "accepted": 0},
+        "discard": None,
+    }
+
+
 def run(scn):
+    if scn.get("kernel_only"):
+        return run_kernel_only(scn)
     import copy
 
     from ..common import Discard
@@ -185,6 +236,15 @@ def _run(scn, **kw):
 
 
 def shrink(scn):
+    if scn.get("kernel_only"):
+        for n in KERNEL_SIZES:
+            if n < scn["n_sites"]:
+                yield dict(scn, n_sites=n)
+        if scn["n_points"] > 1:
+            yield dict(scn, n_points=1)
+        if scn.get("threads", 1) != 1:
+            yield dict(scn, threads=1)
+        return
     import copy
 
     for s in base.physics_shrinks(scn):
